@@ -66,8 +66,16 @@ def case(draw):
     allargs = args + [[n, t] for n, t in zip(pnames, ptypes)]
     order = draw(st.permutations(list(range(len(allargs)))))
     allargs = [allargs[i] for i in order]
-    prog = draw(gen_prog.program(c, args=allargs, params=tuple(pnames)))
+    callee = None
+    fns = None
+    if draw(st.integers(0, 9)) < 3:
+        # the parameterised function calls another compiled function passed with defs=[...]
+        callee = draw(gen_prog.program(gen_prog.Cfg(int_widths=[2], max_in_bits=3, max_args=2, depth=1, max_stmts=0, use_char=False, use_fixed=False,
+                                                    use_tuple=False, use_vidx=False, ret_kinds=("bool", "int")), name="g"))
+        fns = {"g": ([a[1] for a in callee["args"]], callee["ret"])}
+    prog = draw(gen_prog.program(c, args=allargs, params=tuple(pnames), fns=fns))
     prog["params"] = pnames
+    prog["callee"] = callee
     # make the result depend on a parameter most of the time
     if draw(st.integers(0, 9)) < 7 and prog["ret"][0] in ("bool", "int"):
         pn = draw(st.sampled_from(pnames))
@@ -139,14 +147,29 @@ def judge(case):  # noqa: C901
     ptypes = {a[0]: a[1] for a in prog["args"] if a[0] in pnames}
     free_args = [a for a in prog["args"] if a[0] not in pnames]
     feats = ["opt:" + case["opt"], "params:%d" % len(pnames)] + ["ptype:" + ptypes[n][0] for n in pnames]
+    callee = prog.get("callee")
+    fenv = {"fn:g": callee["ret"]} if callee else None
+    defs = []
+    ref_ns = {}
     try:
-        src = gen_prog.render_lib(prog)
+        src = gen_prog.render_lib(prog, fenv)
+        if callee:
+            csrc = gen_prog.render_lib(callee)
+            gq, rej = progeval.compile_lib(csrc, case["opt"])
+            if gq is None:
+                return {"status": "rejected", "nontrivial": False, "features": feats + ["callee-rejected:" + rej]}
+            defs = [gq]
+            ref_ns["g"] = progeval.RefRun(callee).fn
+            feats.append("with-defs")
+            src = csrc + "# ---- caller\n" + src if False else src
     except gen_prog.GenTypeError:
         return {"status": "skip", "nontrivial": False, "features": feats + ["gen-type-error"]}
+    except progeval.Timeout:
+        return {"status": "skip", "nontrivial": False, "features": feats + ["timeout"]}
     try:
         with progeval.time_limit(8):
             try:
-                u = qlassf(src, to_compile=False, bool_optimizer=progeval.optimizer(case["opt"]))
+                u = qlassf(src, defs=defs, to_compile=False, bool_optimizer=progeval.optimizer(case["opt"]))
             except progeval.Timeout:
                 raise
             except Exception as e:
@@ -236,8 +259,10 @@ def judge(case):  # noqa: C901
                     env_extra["tconst:" + n] = list(b[n])
                 elif te[0] == "int":
                     env_extra[n] = te if declared else ["int", refsem.const_width(b[n])]
+            if fenv:
+                env_extra.update(fenv)
             try:
-                refs.append((declared, progeval.RefRun(prog, extra_env=env_extra)))
+                refs.append((declared, progeval.RefRun(prog, extra_ns=dict(ref_ns), extra_env=env_extra)))
             except gen_prog.GenTypeError:
                 refs.append((declared, None))
         if any(r is None for _, r in refs):
